@@ -134,6 +134,7 @@ def run(run: core.Run) -> int:
     quick = run.tier == "quick"
     n_sched, n_free, n_instr, n_prog = (20, 20, 6, 24) if quick else (500, 400, 60, 100)
     jobs = core.jobs_for(run.tier)
+    stamp0 = fresh.tree_stamp()
     prep = core.lean_prepare(MODULES)
     aud = core.audit(THEOREMS, MODULES) if prep["proofs_ok"] else {"obligations": len(THEOREMS), "discharged": 0, "ok": False, "theorems": {}}
     drv = core.Driver() if prep["driver_ok"] else None
@@ -160,6 +161,7 @@ def run(run: core.Run) -> int:
     infra = 0
     st: Counter = Counter()
     found: dict[str, dict] = {}
+    per_kind: Counter = Counter()
     tv: Counter = Counter()
     for c, o in zip(cases, outs):
         if fresh.failed(o) or o.get("broken") or any(e and e.startswith(("sched", "harness")) for e in o.get("errors", [])):
@@ -181,8 +183,10 @@ def run(run: core.Run) -> int:
         diffs = check_run(c, o, refs)
         for d in diffs:
             st["differences"] += 1
-            sig = d["kind"] + "|" + c11.spec_key(c["threads"][d["thread"]][d["index"]])[:1500]
-            if sig not in found and len(found) < 8:
+            st["difference_kind:" + d["kind"]] += 1
+            per_kind[d["kind"]] += 1
+            sig = d["kind"] + "|" + str(min(per_kind[d["kind"]], 3))      # up to three representatives of every kind
+            if sig not in found and len(found) < 30:
                 found[sig] = {"case": c, "out": o, "diff": d}
         if c.get("instrument") and drv is not None and "events" in o:
             m = cachehist.to_model(o["events"])
@@ -228,6 +232,8 @@ def run(run: core.Run) -> int:
         run.violation(d["kind"], d["what"] + f" (seen again in {again} of {tries} re-runs)",
                       {"run": replay_arg, "difference": d, "observed_call": c["threads"][d["thread"]][d["index"]],
                        "how_to_replay": "./check C12 --replay <this file>: runs `run` (for the deterministic scheduler: with the recorded switch list) in a fresh process and compares every call with the same call alone"})
+    if fresh.tree_stamp() != stamp0:
+        raise core.Infra("the files under " + core.REPO + "/explorerscript changed while the check was running: references and sessions saw different trees; run again")
     if not prep["proofs_ok"] or not aud["ok"] or drv is None:
         run.broken_tie("Lean obligations of C12 do not check (build/audit)", {"theorems": THEOREMS, "log": prep["log"][-3000:], "audit": aud})
     sample = [{"mode": c["mode"], "threads": [[x["kind"] for x in t] for t in c["threads"]], **{k: c[k] for k in ("seed", "p_switch", "warm", "antlr", "switchinterval") if k in c}} for c in cases[:2] + cases[n_sched:n_sched + 1]]
